@@ -27,7 +27,7 @@ ASSUMPTIONS = [
     "a compression pointer may reuse an earlier case-variant spelling of the same suffix (RFC 1035 §4.1.4 + case-insensitive identity)",
     "termination is judged by a parser-step budget quadratic in buffer size, with a 20 s per-case wall backstop",
 ]
-REQUIRED = ["mon.constructor_str_labels", "mon.origin_case_twins", "mon.text_roundtrip", "mon.wire_roundtrip", "mon.compressed_decode", "mon.limit_prediction", "mon.hostile_decode", "mon.namehook"]
+REQUIRED = ["mon.pickled_state", "mon.constructor_str_labels", "mon.origin_case_twins", "mon.text_roundtrip", "mon.wire_roundtrip", "mon.compressed_decode", "mon.limit_prediction", "mon.hostile_decode", "mon.namehook"]
 BUDGET = {"quick": 40.0, "thorough": 420.0}
 
 
@@ -405,9 +405,35 @@ def check_ops(ctx, a, b):
                 ctx.violation(f"op-{opn}-raised:" + core.exc_sig(e), f"{rel!r} in {b!r}: {e!r}", case)
 
 
+def check_pickle(ctx, labels):
+    """a name restored from pickled state (the one way a Name comes into being without its constructor): a legal state gives
+    the same labels back, an illegal one (forged or damaged pickle) is refused"""
+    import copy
+    import pickle
+
+    ctx.count("mon.pickled_state")
+    case = {"kind": "pickle", "labels": list(labels)}
+    legal = R.fits(labels) and not any(l == b"" for l in labels[:-1])
+    if legal:
+        n = mk(labels)
+        for how, back in (("pickle", lambda: pickle.loads(pickle.dumps(n, rng_proto[0]))), ("deepcopy", lambda: copy.deepcopy(n)), ("copy", lambda: copy.copy(n))):
+            expect(ctx, "restore-" + how, back, tuple(labels), case)
+        rng_proto[0] = (rng_proto[0] + 1) % (pickle.HIGHEST_PROTOCOL + 1)
+    # the state as pickle would hand it over, legal or not
+    def restore():
+        n2 = dns.name.Name.__new__(dns.name.Name)
+        n2.__setstate__({"labels": tuple(labels)})
+        return n2
+    expect(ctx, "__setstate__", restore, tuple(labels) if legal else None, case)
+
+
+rng_proto = [0]
+
+
 def check_text_limits(ctx, labels):
     """text of an arbitrary (maybe illegal) label sequence: accept iff it fits"""
     ctx.count("evaluations")
+    check_pickle(ctx, labels)
     case = {"kind": "textlimit", "labels": list(labels)}
     if any(l == b"" for l in labels[:-1]):
         return
